@@ -219,7 +219,16 @@ def run_portfolio(gb, flags, job, timeout, jout, tier):
             p = subprocess.Popen(cmd, stdout=fo, stderr=subprocess.PIPE, preexec_fn=pre)
             with lock:
                 procs[be] = p
-            _, err = p.communicate()
+            try:
+                _, err = p.communicate(timeout=timeout + 30)
+            except subprocess.TimeoutExpired:
+                # own deadline of every member, independent of the supervising loop below
+                try:
+                    os.killpg(p.pid, signal.SIGKILL)
+                except (ProcessLookupError, PermissionError, OSError):
+                    pass
+                p.kill()
+                _, err = p.communicate()
         with lock:
             done.append((be, p.returncode, err, cmd, out))
     ths = [threading.Thread(target=go, args=(be,)) for be in ('sat', 'kissat')]
